@@ -935,7 +935,7 @@ class Parsent(object):
     def reinit(self,
                msg=None,
                dictable=None,
-               method=u'GET'):
+               method=None):
         """
         Reinitialize Instance
         msg = bytearray of request msg to parse
